@@ -148,4 +148,16 @@ def c02_4(c: Ctx) -> None:
                    witness=[f'{where(u, call)}: {U(call)}', f'call chain without lock: {via}'])
 
 
+
+@ob('C02.5', 'PAIR', 'a serial bus does not start the next event while a handler of the current one is still running: execute_handler joins (not merely stops waiting for) its '
+    'handler task on every exit, including after a timeout or cancellation (same obligation as C06.3 / C10.3 for the handler task)')
+def c02_5(c: Ctx) -> None:
+    from .c06 import check_handler_task
+    from .c10 import handler_task_var
+
+    u = c.unit(SVC, 'EventBus.execute_handler')
+    t, tasg = handler_task_var(c, u)
+    check_handler_task(c, u, tasg.value, tasg.value.args[0])
+
+
 OBLIGATIONS = ob.obs
